@@ -240,7 +240,7 @@ def classify(f, ctx):
             ff["kind"] = "SET:missing"
             r = KF.attribute(ff, lambda caching, side=side, perm=perm: c10.run(side, world, caching, perm=perm)[0],
                              c10.expected(side, world), mentioned_not_selected=False,
-                             compare=lambda got, e: H.diff_kind(got, e, ordered=False, multiset=False))
+                             compare=lambda got, e: H.diff_kind(got, e, ordered=False, multiset=False), nvars=len(fc["kinds"]))
             if r == "K05":
                 return "K05"
         return None
@@ -255,7 +255,7 @@ def classify(f, ctx):
         ff = dict(f)
         ff["kind"] = "SET:missing"
         r = KF.attribute(ff, lambda caching, side=side: _rows(case, world, side, caching), exp, mentioned_not_selected=False,
-                         compare=lambda got, e: H.diff_kind(got, e, ordered=False, multiset=False))
+                         compare=lambda got, e: H.diff_kind(got, e, ordered=False, multiset=False), nvars=len(case["kinds"]))
         if r == "K05":
             return "K05"
     # K02: subset selections
